@@ -64,7 +64,7 @@ def check_c10(tier, seed):
     consts = dict(Ent={1, 2}, Child=3, Threads={"t1", "t2"}, MaxClones=3, MaxOps=8 if quick else 10, SplitDrop=True, Mutants=set())
     cfg = os.path.join(wd, "AD.cfg")
     tlc.write_cfg(cfg, "Spec", consts, invariants=AD_INVS, view="View")
-    mc = tlc.run("AutoDespawn.tla", cfg, os.path.join(wd, "mc"), workers=12, timeout=300 if quick else 1500)
+    mc = tlc.run("AutoDespawn.tla", cfg, os.path.join(wd, "mc"), workers=12, timeout=300 if quick else 1500, cache=True)
     if mc.error:
         raise ToolError("TLC error in AutoDespawn.tla:\n" + mc.error)
     # (b) schedules for lock-step replay on real threads
@@ -72,7 +72,7 @@ def check_c10(tier, seed):
     gcfg = os.path.join(wd, "ADG.cfg")
     tlc.write_cfg(gcfg, "Spec", gconsts, invariants=["Emitted"])
     num = 400 if quick else 6000
-    gen = tlc.run("ADGen.tla", gcfg, os.path.join(wd, "gen"), workers=1, timeout=300 if quick else 1200,
+    gen = tlc.run("ADGen.tla", gcfg, os.path.join(wd, "gen"), workers=1, cache=True, timeout=300 if quick else 1200,
                   extra=["-simulate", "num=%d" % num, "-depth", "200", "-seed", str(seed)])
     hists = list(progs.parse_replay_lines(gen.stdout))
     if not hists:
